@@ -2,7 +2,7 @@
    Only statements here; every proof is [exact <lemma of Proofs/C20.v>].
    [reachable st] = st is the state after some history of requests and time passages from the empty directory. *)
 From Coq Require Import String.
-From Verif Require Import Lib.Py Lib.Tactics Model.C20Str Model.C20 Model.C20Spec Proofs.C20Dict Proofs.C20Up Proofs.C20 Proofs.C20More Proofs.C20RefA Proofs.C20Refine.
+From Verif Require Import Lib.Py Lib.Tactics Model.C20Str Model.C20 Model.C20Spec Proofs.C20Dict Proofs.C20Up Proofs.C20 Proofs.C20More Proofs.C20RefA Proofs.C20Refine Proofs.C20R5.
 Open Scope Z_scope.
 
 (* after every history the index invariant holds and no lifetime timer is overdue *)
@@ -159,6 +159,65 @@ Theorem C20_spec_entries_alive : forall d o, all_alive (fst (d_step d o)).
 Proof. exact d_step_alive. Qed.
 Print Assumptions C20_spec_entries_alive.
 
+(* ---- round 5 *)
+(* What a successful write sets, as equations over the request's parameters (independent of update_params' control flow): the
+   lifetime, the base and whether it is explicit, every other parameter merged key by key; ep / d cannot be among them.
+   [NoDup (map fst p)] holds for every parsed query (C20_query_keys_unique). *)
+Theorem C20_write_sets_parameters : forall r remote p init t seq r', NoDup (map fst p) ->
+  update_params r remote p init t seq = UpOk r' ->
+  r_lt r' = match dget String.eqb p "lt" with
+            | Some [Some s] => match parse_int s with Some n => n | None => r_lt r end
+            | _ => r_lt r end /\
+  (forall b, dget String.eqb p "base" = Some [Some b] -> r_base r' = b /\ r_base_explicit r' = true) /\
+  (dget String.eqb p "base" = None -> r_base_explicit r' = r_base_explicit r /\
+     (r_base_explicit r = false -> exists u, remote = Some u /\ r_base r' = u) /\
+     (r_base_explicit r = true -> r_base r' = r_base r)) /\
+  (forall k, k <> "lt"%string -> k <> "base"%string ->
+     dget String.eqb (r_params r') k = match dget String.eqb p k with Some v => Some v | None => dget String.eqb (r_params r) k end) /\
+  (dget String.eqb p "ep" = None /\ dget String.eqb p "d" = None).
+Proof. exact write_sets_parameters. Qed.
+Print Assumptions C20_write_sets_parameters.
+Theorem C20_query_keys_unique : forall qs, NoDup (map fst (query_split qs)).
+Proof. exact query_split_nodup. Qed.
+Print Assumptions C20_query_keys_unique.
+(* the same for the abstract directory of C20_refinement: the entry after a successful write, field by field *)
+Theorem C20_spec_write_sets_parameters : forall e remote p init t e', NoDup (map fst p) -> write_params e remote p init t = Ok e' ->
+  e_key e' = e_key e /\ e_loc e' = e_loc e /\ e_links e' = e_links e /\ e_written e' = t /\
+  e_lt e' = match dget String.eqb p "lt" with
+            | Some [Some s] => match parse_int s with Some n => n | None => e_lt e end
+            | _ => e_lt e end /\
+  (forall b, dget String.eqb p "base" = Some [Some b] -> e_base e' = b /\ e_explicit e' = true) /\
+  (dget String.eqb p "base" = None -> e_explicit e' = e_explicit e /\
+     (e_explicit e = false -> exists u, remote = Some u /\ e_base e' = u) /\ (e_explicit e = true -> e_base e' = e_base e)) /\
+  (forall k, k <> "lt"%string -> k <> "base"%string ->
+     dget String.eqb (e_params e') k = match dget String.eqb p k with Some v => Some v | None => dget String.eqb (e_params e) k end).
+Proof. exact spec_write_sets_parameters. Qed.
+Print Assumptions C20_spec_write_sets_parameters.
+
+(* Declarative meaning of the lookup criteria used by C20_lookup_all_criteria: a registration (a link) satisfies a criterion iff
+   one of its candidate values — the registration parameter of that name, that attribute of one of its resolved links, or for
+   href the registration path / a link target — matches the criterion value: exactly, by prefix for "v*", item-wise for rt / if *)
+Theorem C20_criterion_meaning_endpoint : forall c r, ep_keep c r = true <-> exists ox, ep_candidate c r ox /\ value_ok (c_m c) ox.
+Proof. exact ep_keep_spec. Qed.
+Print Assumptions C20_criterion_meaning_endpoint.
+Theorem C20_criterion_meaning_resource : forall c e l, res_keep c (e, l) = true <-> exists ox, res_candidate c e l ox /\ value_ok (c_m c) ox.
+Proof. exact res_keep_spec. Qed.
+Print Assumptions C20_criterion_meaning_resource.
+Theorem C20_criteria_of_query : forall q c, In c (criteria_of q) <->
+  exists k vs v, In (k, vs) q /\ is_paging k = false /\ In v vs /\
+    c = {| c_key := k; c_m := (make_matcher v, in_strs k ["if"; "rt"]%string); c_href := String.eqb k "href" |}.
+Proof. exact criteria_of_spec. Qed.
+Print Assumptions C20_criteria_of_query.
+
+(* Observers of the lookup resources: whenever the set of listed registrations changes (registration, re-registration, removal,
+   expiry) the change callbacks run at least once during that step. PARTIAL: a change of what the lookups show WITHOUT a change
+   of the set is announced only if lt, base or a parameter changed (by definition of notify_count / actual_change); a PUT that
+   replaces only the links is not announced — open finding, witness C20_put_links_not_notified_refuted below. *)
+Theorem C20_listing_changes_are_notified_partial : forall st o st' r, reachable st -> nonneg_time o -> step st o = (st', r) ->
+  by_key st' <> by_key st -> 0 < notify_count st o.
+Proof. exact listing_changes_notified_reachable. Qed.
+Print Assumptions C20_listing_changes_are_notified_partial.
+
 (* ---- non-vacuity and witnesses (all by computation) *)
 Definition lf (ls : list link) : body := {| b_cf := Some 40; b_payload := PLinks ls |}.
 Definition nobody : body := {| b_cf := None; b_payload := PLinks [] |}.
@@ -212,4 +271,15 @@ Example C20_multi_criteria_lookup :
   ep_lookup st ["ep=a"; "count=5"]%string None = ep_lookup st ["ep=a"]%string None /\
   ep_lookup st ["ep=a"; "count=1"; "page=1"]%string None = Content "</reg/3/>;ep=""a"";d=""y"";base=""coap://h1"";rt=""core.rd-ep"""%string /\
   ep_lookup st ["ep=a"; "ep=b"]%string None = Content ""%string.
+Proof. vm_compute. repeat split. Qed.
+
+(* open finding C20:lookup-observers-not-notified:put-links, as the code behaves: the PUT changes what the resource lookup shows,
+   is answered 2.04, and no change callback runs; the same PUT with a changed parameter is announced *)
+Example C20_put_links_not_notified_refuted :
+  let st := run_state empty_rd [Register h1 ["ep=a"]%string (lf [{| l_href := "/s1"; l_attrs := [] |}])] in
+  let o := UpdatePut ["1"; ""]%string h1 [] (lf [{| l_href := "/s2"; l_attrs := [] |}]) in
+  snd (step st o) = Changed /\ res_lookup st [] None = Content "<coap://h1/s1>"%string /\
+  res_lookup (fst (step st o)) [] None = Content "<coap://h1/s2>"%string /\ notify_count st o = 0 /\
+  notify_count st (UpdatePut ["1"; ""]%string h1 ["et=x"]%string (lf [{| l_href := "/s2"; l_attrs := [] |}])) = 1 /\
+  run_notified empty_rd [Register h1 ["ep=a"]%string (lf []); Register h1 ["ep=a"]%string (lf []); Delete ["1"; ""]%string] = [1; 2; 1].
 Proof. vm_compute. repeat split. Qed.
